@@ -12,6 +12,8 @@ import (
 func (tr *trans) instr(in ssa.Instruction, st State) {
 	bi := tr.curB.Index
 	reach := tr.reach[bi]
+	tr.atAsserts(in, st)
+	tr.guardInstr(in, st)
 	switch x := in.(type) {
 	case *ssa.DebugRef:
 		return
@@ -27,6 +29,7 @@ func (tr *trans) instr(in ssa.Instruction, st State) {
 		tr.binop(x, st)
 	case *ssa.Call:
 		tr.call(x, x.Common(), st)
+		tr.acquired(x.Common(), st)
 	case *ssa.FieldAddr:
 		// address computations are resolved at their uses; nil base is checked here like Go does
 		l := tr.locOf(x.X)
@@ -830,6 +833,9 @@ func (tr *trans) frameObligations(st State, k int, pos token.Pos) {
 			continue
 		}
 		if _, ok := tr.stateSort[name]; !ok {
+			continue
+		}
+		if tr.sharedHeaps[name] {
 			continue
 		}
 		cur := tr.getState(st, name)
